@@ -7,7 +7,7 @@ import "time"
 // about the rule for non-trivial cases.
 var props = map[string]propCfg{
 	"C08": {
-		Quick:    tierCfg{Shards: 8, Checks: 6000, Timeout: 4 * time.Minute},
+		Quick:    tierCfg{Shards: 8, Checks: 40000, Timeout: 4 * time.Minute},
 		Thorough: tierCfg{Shards: 16, Checks: 250000, Timeout: 40 * time.Minute, Env: []string{"VERIF_C08_CLI_EVERY=200"}},
 		Rule: "patch bytes: every prefix of every repository patch (exhaustive sweep), hostile constants in 7 frames, and generated inputs " +
 			"(random bytes, structured text, 1-3 token mutations of repository patches, template-grammar ill-typed patches) crossed with repository test inputs " +
